@@ -287,6 +287,14 @@ class BaseEngine(abc.ABC):
                 kwargs.update(tdm_options)
 
             if prev is None:
+                # The backend is initialized with init_num_subsystems modes indexed contiguously
+                # from zero. A register that starts with deleted subsystems (inherited from a
+                # program that was run elsewhere, or before a reset) cannot be matched to it.
+                if not all(r.active for r in p.init_reg_refs.values()):
+                    raise RuntimeError(
+                        f"Register mismatch: program {len(self.run_progs)}, '{p.name}' starts "
+                        "with deleted subsystems but there is no previous program segment."
+                    )
                 # initialize the backend
                 self._init_backend(p.init_num_subsystems)
             else:
